@@ -59,6 +59,7 @@ type Disk struct {
 
 func (s *Sim) NewDisk(dir string, inst int, dice *Dice) *Disk {
 	d := &Disk{Dir: dir, Inst: inst, files: map[string]*shadowFile{}, sim: s, ArmAt: -1, dice: dice}
+	s.disks = append(s.disks, d)
 	// everything present when the instance boots is durable (it is the image we start from)
 	_ = filepath.WalkDir(dir, func(p string, de fs.DirEntry, err error) error {
 		if err != nil || de.IsDir() {
